@@ -349,12 +349,12 @@ class System:
     def quiet(self, label, deadline=DEADLINE, hold=1.2, reps=None):
         """nothing is changed from outside until the world (every replica, or the named ones) has been converged for `hold`
         seconds (or the deadline passes)"""
-        t0, since = time.time(), None
-        while time.time() - t0 < deadline:
+        t0, since = time.monotonic(), None
+        while time.monotonic() - t0 < deadline:
             ws = self.snapshot(label)
             if all(self.converged(ws[r]) for r in (reps if reps is not None else range(len(self.reps)))):
-                since = since or time.time()
-                if time.time() - since >= hold:
+                since = since or time.monotonic()
+                if time.monotonic() - since >= hold:
                     return True
             else:
                 since = None
@@ -418,8 +418,8 @@ def scenario(scratch, binp, rnd, nrep=1):
             sh.prom.refuse = True
         sysm.disc.add(5)
         sysm.write_cfg()
-        t0 = time.time()
-        while time.time() - t0 < 1.5:
+        t0 = time.monotonic()
+        while time.monotonic() - t0 < 1.5:
             sysm.snapshot('refusing')
             time.sleep(0.1)
         for sh in sysm.shards:
@@ -450,16 +450,16 @@ def scenario(scratch, binp, rnd, nrep=1):
             sh.prom.refuse = True
         sysm.timeout = '9s'
         sysm.reload_coordinator()
-        t0 = time.time()
-        while time.time() - t0 < 1.2:
+        t0 = time.monotonic()
+        while time.monotonic() - t0 < 1.2:
             sysm.snapshot('push-refused')
             time.sleep(0.1)
         for sh in sysm.shards:
             sh.prom.refuse = False
         phases.append(('push-refused', sysm.quiet('push-refused')))
         # ... every Prometheus ends up running the edited configuration (nothing else happens that would make it reload)
-        t0, ok = time.time(), False
-        while time.time() - t0 < DEADLINE / 3 and not ok:
+        t0, ok = time.monotonic(), False
+        while time.monotonic() - t0 < DEADLINE / 3 and not ok:
             ok = all('scrape_timeout: 9s' in sh.prom.loaded_text for sh in sysm.shards)
             time.sleep(0.2)
         sysm.snapshot('prometheus-runs-the-pushed-configuration')
